@@ -40,6 +40,8 @@ type scen struct {
 	IdleMs    int    `json:"idle_ms"`
 	Slow      bool   `json:"slow"` // slow data callback (readiness events arrive while a read task runs)
 	Pending   bool   `json:"pending"` // the peer half-closes / closes while input is still unread
+	Backlog   bool   `json:"backlog"` // the server first writes more than the socket takes: the poller handles pure writing
+	// events (flushes that end on EAGAIN) while the peer is silent, then the peer sends
 }
 
 var tr *hlib.Trace
@@ -101,7 +103,12 @@ func run(s scen) (bytes int64) {
 	var deliveredBy sync.Map // stream id -> *int64
 	connIDs := sync.Map{}
 	var nextConn int32
-	g.OnOpen(func(c *nbio.Conn) { c.SetSession(&sess{sid: -1}) })
+	g.OnOpen(func(c *nbio.Conn) {
+		c.SetSession(&sess{sid: -1})
+		if s.Backlog && s.Transport != "udp" {
+			c.Write(make([]byte, 6<<20))
+		}
+	})
 	g.OnData(func(c *nbio.Conn, data []byte) {
 		ss, _ := c.Session().(*sess)
 		if ss == nil {
@@ -239,6 +246,20 @@ func run(s scen) (bytes int64) {
 					hlib.Fatal("dial: %v", err)
 				}
 				defer c.Close()
+				if s.Backlog {
+					// drain the server's block slowly (every read makes room: a writing event on the server) and stay silent
+					// for a while; the bursts follow while the rest is still draining
+					go func() {
+						buf := make([]byte, 128<<10)
+						for {
+							if _, err := c.Read(buf); err != nil {
+								return
+							}
+							time.Sleep(2 * time.Millisecond)
+						}
+					}()
+					time.Sleep(150 * time.Millisecond)
+				}
 				rr := rand.New(rand.NewSource(s.Seed + int64(ci)*7))
 				sid := ci + 1
 				off := 0
